@@ -69,3 +69,11 @@ package keeper
 //@           && 2 * types.stPower(validatorPriceInfos, types.SIGNAL_PRICE_STATUS_AVAILABLE, 0, len(validatorPriceInfos)) >= types.allPower(validatorPriceInfos, 0, len(validatorPriceInfos))
 //@           && types.stPower(validatorPriceInfos, types.SIGNAL_PRICE_STATUS_AVAILABLE, 0, len(validatorPriceInfos)) > 0
 //@           ==> result.Status == types.PRICE_STATUS_AVAILABLE
+
+// ---- C07: a vote is accepted only if the (mathematical) sum of its signal powers does not exceed the
+// voter's total power; that sum is what gets locked.
+//@ func (k Keeper) LockVoterPower
+//@ modifies Other
+//@ ensures err == nil ==> types.psumS(signals, 0, len(signals)) <= types.totalPowerOf(old(Other), voter)
+//@ ensures err != nil ==> Other == old(Other)
+//@ loop 0: invariant sumPower == types.psumS(signals, 0, #i)
